@@ -1,4 +1,5 @@
 import H2V.Lemmas.ConnResetPHist
+import H2V.Lemmas.ConnResetPFuel
 /-
   C08 — no peer input can panic, wedge or busy-loop an endpoint.
   PROPERTY THEOREMS ONLY (proofs: H2V/Lemmas/ConnResetP*.lean; status: H2V/Lemmas/ConnResetPNOTES.md).
@@ -27,7 +28,49 @@ theorem key_names_one_stream (s : Streams) (hs : s.store.slab = []) (ops ops' : 
   let r := run_srel (run s ops) ops' (run_keysBelow s ops (keysBelow_empty s hs)) h h'
   ⟨r.key, r.id⟩
 
+/-- **The queue-draining loops terminate after `queue length` rounds** (`Send::clear_queues`,
+    `Recv::clear_queues`: `clear_pending_capacity`, `clear_pending_send`, `clear_pending_open`,
+    `clear_stream_window_update_queue`, `clear_all_reset_streams`, `clear_all_pending_accept`).
+    In the model every `while let Some(stream) = queue.pop(store) { … }` carries fuel; with more than
+    `queue length` units the result no longer depends on the fuel: the loop has run into the empty
+    queue.  The callers pass `length + 1`. -/
+theorem clear_queue_loops_terminate (n m : Nat) (s : Streams) :
+    (s.prio.pendingCapacity.length < n → s.prio.pendingCapacity.length < m →
+      Streams.clearPendingCapacity n s = Streams.clearPendingCapacity m s) ∧
+    (s.prio.pendingSend.length < n → s.prio.pendingSend.length < m →
+      Streams.clearPendingSend n s = Streams.clearPendingSend m s) ∧
+    (s.prio.pendingOpen.length < n → s.prio.pendingOpen.length < m →
+      Streams.clearPendingOpen n s = Streams.clearPendingOpen m s) ∧
+    (s.recv.pendingWindowUpdates.length < n → s.recv.pendingWindowUpdates.length < m →
+      Streams.clearStreamWindowUpdateQueue n s = Streams.clearStreamWindowUpdateQueue m s) ∧
+    (s.recv.pendingResetExpired.length < n → s.recv.pendingResetExpired.length < m →
+      Streams.clearAllResetStreams n s = Streams.clearAllResetStreams m s) ∧
+    (s.recv.pendingAccept.length < n → s.recv.pendingAccept.length < m →
+      Streams.clearAllPendingAccept n s = Streams.clearAllPendingAccept m s) :=
+  ⟨clearPendingCapacity_fuel n m s, clearPendingSend_fuel n m s, clearPendingOpen_fuel n m s,
+   clearStreamWindowUpdateQueue_fuel n m s, clearAllResetStreams_fuel n m s, clearAllPendingAccept_fuel n m s⟩
+
+/-- the fuel `Send::clear_queues` passes (`len + 1`) is on the safe side of the bound -/
+example (s : Streams) : s.prio.pendingSend.length < s.prio.pendingSend.length + 1 := Nat.lt_succ_self _
+
+/-- **`clear_expired_reset_streams`, run at the head of every `Connection::poll`, terminates** after at
+    most `pending_reset_expired.len()` rounds (`poll2` passes `len + 1`). -/
+theorem clear_expired_reset_streams_terminates (n m : Nat) (s : Streams)
+    (hn : s.recv.pendingResetExpired.length < n) (hm : s.recv.pendingResetExpired.length < m) :
+    Streams.clearExpiredResetStreams n s = Streams.clearExpiredResetStreams m s :=
+  clearExpiredResetStreams_fuel n m s hn hm
+
+/-- **`poll_response` does bounded work**: it skips at most the queued 1xx heads, one per round
+    (`pending_recv.len() + 1` rounds suffice, which is what the driver passes). -/
+theorem poll_response_terminates (n m : Nat) (s : Streams) (k : Nat) (tag : String)
+    (hn : (s.stream k).pendingRecv.length < n) (hm : (s.stream k).pendingRecv.length < m) :
+    Streams.recvPollResponse n s k tag = Streams.recvPollResponse m s k tag :=
+  recvPollResponse_fuel n m s k tag hn hm
+
 end H2V.Props.C08
 
 #print axioms H2V.Props.C08.keys_below_next
 #print axioms H2V.Props.C08.key_names_one_stream
+#print axioms H2V.Props.C08.clear_queue_loops_terminate
+#print axioms H2V.Props.C08.clear_expired_reset_streams_terminates
+#print axioms H2V.Props.C08.poll_response_terminates
